@@ -39,6 +39,7 @@ type schedWorld struct {
 }
 
 func newSchedWorld(files []*sFile) *schedWorld {
+	vh.Epoch2011()
 	root := vh.NewSandbox()
 	sw := &schedWorld{root: root, w: newRW(root), errs: map[string]error{}, files: map[string]*sFile{}}
 	for _, f := range files {
@@ -73,7 +74,7 @@ func newSchedWorld(files []*sFile) *schedWorld {
 	return sw
 }
 
-func (sw *schedWorld) ftime() time.Time { return time.Date(1999, 12, 31, 23, 0, 0, 0, time.UTC) }
+func (sw *schedWorld) ftime() time.Time { return time.Date(2010, 12, 31, 23, 0, 0, 0, time.UTC) }
 
 // recv is what http.Server.routeData does for one part.
 func (sw *schedWorld) recv(key string, p int, corrupt bool) {
